@@ -52,12 +52,16 @@ func c03r1(p *Program, r *Report) {
 			if !ok || !isCallTo(info, c, "(*framer).writeHeader") || len(c.Args) != 3 {
 				return true
 			}
-			opName := exprStr(c.Args[1])
-			v, isC := constInt(info, c.Args[1])
-			want, known := specRequestOps[opName]
-			seenOps[opName]++
-			r.Check(isC && known && v == want, c, fi.Name+" header opcode "+opName, fmt.Sprintf("0x%02X as in the specification", v),
-				fmt.Sprintf("the frame is written with opcode %s=0x%02X, which is not the specification's request opcode of that name", opName, v))
+			// the opcode may be passed through a wrapper of writeHeader: judge it where the constant is chosen
+			for _, site := range p.effectiveArgs(fi, c, 1, 0) {
+				sinfo := site.Fn.Pkg.TypesInfo
+				opName := exprStr(site.Expr)
+				v, isC := constInt(sinfo, site.Expr)
+				want, known := specRequestOps[opName]
+				seenOps[opName]++
+				r.Check(isC && known && v == want, site.Call, site.Fn.Name+" header opcode "+opName, fmt.Sprintf("0x%02X as in the specification", v),
+					fmt.Sprintf("the frame is written with opcode %s=0x%02X, which is not the specification's request opcode of that name", opName, v))
+			}
 			return true
 		})
 	})
@@ -559,6 +563,7 @@ func c03r5(p *Program, r *Report) {
 func c03r7(p *Program, r *Report) {
 	// every uint16(len(x)) passed to writeShort in frame writers: is there a dominating len(x) <= 65535 ?
 	n := 0
+	seen7 := map[string]int{}
 	p.forEachFunc(false, func(fi *FuncInfo) {
 		if fi.Decl.Recv == nil || !strings.HasPrefix(fi.Name, "(*framer).write") {
 			return
@@ -579,25 +584,43 @@ func c03r7(p *Program, r *Report) {
 			}
 			arg := ast.Unparen(c.Args[0])
 			isLen := false
-			if lc, ok := arg.(*ast.CallExpr); ok && exprStr(lc.Fun) == "len" {
-				isLen = true
+			var measured ast.Expr
+			if lc, ok := arg.(*ast.CallExpr); ok && exprStr(lc.Fun) == "len" && len(lc.Args) == 1 {
+				isLen, measured = true, lc.Args[0]
 			}
 			if id, ok := arg.(*ast.Ident); ok {
 				if def := localDef(info, fi, id); def != nil {
-					if lc, ok := ast.Unparen(def).(*ast.CallExpr); ok && exprStr(lc.Fun) == "len" {
-						isLen = true
+					if lc, ok := ast.Unparen(def).(*ast.CallExpr); ok && exprStr(lc.Fun) == "len" && len(lc.Args) == 1 {
+						isLen, measured = true, lc.Args[0]
 					}
 				}
 			}
 			if !isLen {
 				return true
 			}
+			// name the construct by what is counted (type-qualified field, or the writer's parameter), not by the
+			// spelling of locals: the same narrowing stays the same finding across renames and moved code
+			what := exprStr(measured)
+			if sel, ok := ast.Unparen(measured).(*ast.SelectorExpr); ok {
+				if fv := fieldOf(info, sel); fv != nil {
+					what = typeNameOf(info.TypeOf(sel.X)) + "." + fv.Name()
+				}
+			} else if id, ok := ast.Unparen(measured).(*ast.Ident); ok {
+				if t := info.TypeOf(id); t != nil {
+					what = fi.Name + " parameter:" + t.String()
+				}
+			}
+			construct := "frame writer narrows the count of " + what + " to uint16"
+			seen7[construct]++
+			if seen7[construct] > 1 {
+				construct = fmt.Sprintf("%s #%d", construct, seen7[construct])
+			}
 			n++
 			g := p.GraphOf(fi)
 			f, _ := g.GuardFacts().Before(c)
 			d := newDBM(g, f, nil)
 			ub, okUB := d.constUpper(arg)
-			r.Check(okUB && ub <= 65535, c, constructKey(fi, c), "count bounded by 65535 before narrowing", "a length is narrowed to 16 bits without a bound check: more than 65535 values/bytes are silently truncated into a malformed frame instead of being refused")
+			r.Check(okUB && ub <= 65535, c, construct, "count bounded by 65535 before narrowing", "a length is narrowed to 16 bits without a bound check: more than 65535 values/bytes are silently truncated into a malformed frame instead of being refused")
 			return true
 		})
 	})
